@@ -1094,6 +1094,8 @@ func (e *Engine) macro(env *Env, name string) (*Macro, *types.Package) {
 	return nil, nil
 }
 
+var substCounter int
+
 func substCExpr(e CExpr, sub map[string]CExpr) CExpr {
 	switch t := e.(type) {
 	case CIdent:
@@ -1129,10 +1131,15 @@ func substCExpr(e CExpr, sub map[string]CExpr) CExpr {
 		for k, v := range sub {
 			inner[k] = v
 		}
+		// capture-avoiding: bound variables of the macro body are renamed apart from the arguments
+		var vars []CVar
 		for _, v := range t.Vars {
-			delete(inner, v.Name)
+			substCounter++
+			nn := fmt.Sprintf("%s_m%d", v.Name, substCounter)
+			inner[v.Name] = CIdent{nn}
+			vars = append(vars, CVar{nn, v.Type})
 		}
-		return CQuant{t.Forall, t.Vars, substCExpr(t.Body, inner)}
+		return CQuant{t.Forall, vars, substCExpr(t.Body, inner)}
 	}
 	return e
 }
